@@ -50,10 +50,19 @@ def solve(A, b, Delta):
     bError = (pNorm - Delta)/Delta
     #print('\nberror = ', bError)
 
-    # consider an out if it doesnt converge, or use a better initial guess, or bound the lam from below and above.
-    while np.abs(bError) > 1e-9:
+    # Stop when the boundary error is small, when lam has converged to working
+    # precision (for a tiny gradient against a large negative eigenvalue the
+    # requested boundary accuracy is below the resolution of lam), or after a
+    # fixed number of iterations; the loop used to spin forever in those cases.
+    maxSecularIters = 200
+    for i in range(maxSecularIters):
+        if np.abs(bError) <= 1e-9:
+            break
         qNormSq = qnorm_squared(bvv, sig+lam)
-        lam += (pNormSq / qNormSq) * bError
+        lamNew = lam + (pNormSq / qNormSq) * bError
+        if lamNew == lam:
+            break
+        lam = lamNew
         pNormSq = pnorm_squared(bvv, sig+lam)
         pNorm = np.sqrt(pNormSq)
         bError = (pNorm - Delta)/Delta
